@@ -210,7 +210,9 @@ func c18Facts(fc *facts) {
 //                          channel and releases it only when that function has returned (deferred Unlock).
 // c18CompactOneQueue       every call of the compactor's Compact in dkv/db.go sits in a function handed to Enqueue
 //                          (directly, or through a helper of the file that forwards its queue and its function, wrapped
-//                          in a closure that calls it, to Enqueue) with one and the same package-level bg.NewQueue queue.
+//                          in a closure that calls it, to Enqueue) with one and the same package-level bg.NewQueue queue;
+//                          the function may be a closure or an unexported method/function handed over by name (method
+//                          value) or called directly from such a function — every use of it must lead to that queue.
 // c18LevelListPersistent   LevelList.NewWithChangeSet clones the receiver's level slice, applies additions and
 //                          removals to the clone only and never assigns through the receiver; Level.tablesAdded /
 //                          tablesRemoved have value receivers and build their table set with Set.Added / Set.Diff,
@@ -403,40 +405,140 @@ func c18StructFacts(fc *facts) {
 				forwarders[fd.Name.Name] = true
 			}
 		}
-		used := map[string]bool{}
-		compactCalls, covered := 0, 0
-		var walk func(n ast.Node, q string)
-		walk = func(n ast.Node, q string) {
-			ast.Inspect(n, func(x ast.Node) bool {
-				if lit, isLit := x.(*ast.FuncLit); isLit {
-					// a closure that is not handed to Enqueue may run anywhere (go statement, errgroup.Go, callback)
-					walk(lit.Body, "")
-					return false
+		// Where does every compactor.Compact call run? A call site runs
+		//   - in queue Q when its innermost enclosing closure is the function handed to Enqueue / a forwarder with Q;
+		//   - nowhere known ("free") when its innermost enclosing closure is anything else;
+		//   - at the top level of a named function F otherwise: then wherever F runs. F (unexported) runs in Q when it is
+		//     handed as a method value / function name to Enqueue / a forwarder with Q, in the context of the site of every
+		//     direct call F(..), and "free" for any other use (go statement, stored, passed elsewhere) or when exported.
+		funcs := map[string]*ast.FuncDecl{}
+		for _, d := range f.Decls {
+			if fd, isF := d.(*ast.FuncDecl); isF && fd.Body != nil {
+				funcs[fd.Name.Name] = fd
+			}
+		}
+		const free = "!"
+		isQueueCall := func(c *ast.CallExpr) (string, bool) {
+			if _, sel := lastSel(c.Fun); (sel == "Enqueue" || forwarders[sel]) && len(c.Args) == 2 {
+				if id, isId := c.Args[0].(*ast.Ident); isId && queues[id.Name] {
+					return id.Name, true
 				}
-				c, isC := x.(*ast.CallExpr)
-				if !isC {
+			}
+			return "", false
+		}
+		// ctxAt computes, for every node of a function body, the context it runs in: "top" (top level of the function),
+		// a queue name, or free. visit is called for every node with that context and the stack of ancestors.
+		var scan func(fd *ast.FuncDecl, visit func(n ast.Node, ctx string, parents []ast.Node))
+		scan = func(fd *ast.FuncDecl, visit func(n ast.Node, ctx string, parents []ast.Node)) {
+			var stack []ast.Node
+			var ctxs []string
+			cur := "top"
+			ast.Inspect(fd.Body, func(n ast.Node) bool {
+				if n == nil {
+					top := stack[len(stack)-1]
+					stack = stack[:len(stack)-1]
+					if _, isLit := top.(*ast.FuncLit); isLit {
+						cur = ctxs[len(ctxs)-1]
+						ctxs = ctxs[:len(ctxs)-1]
+					}
 					return true
 				}
-				if p, sel := lastSel(c.Fun); sel == "Compact" && strings.HasSuffix(p, "compactor") {
-					compactCalls++
-					if q != "" {
-						covered++
-						used[q] = true
-					}
-				}
-				if _, sel := lastSel(c.Fun); (sel == "Enqueue" || forwarders[sel]) && len(c.Args) == 2 {
-					if id, isId := c.Args[0].(*ast.Ident); isId && queues[id.Name] {
-						if lit, isLit := c.Args[1].(*ast.FuncLit); isLit {
-							walk(lit.Body, id.Name)
-							return false
+				if lit, isLit := n.(*ast.FuncLit); isLit {
+					ctxs = append(ctxs, cur)
+					cur = free
+					if len(stack) > 0 {
+						if c, isC := stack[len(stack)-1].(*ast.CallExpr); isC && len(c.Args) == 2 && c.Args[1] == ast.Expr(lit) {
+							if q, okq := isQueueCall(c); okq {
+								cur = q
+							}
 						}
 					}
 				}
+				visit(n, cur, stack)
+				stack = append(stack, n)
 				return true
 			})
 		}
-		walk(f, "")
-		ok := compactCalls >= 1 && covered == compactCalls && len(used) == 1
+		var funcCtx func(name string, depth int) map[string]bool
+		resolve := func(ctx string, owner string, depth int) map[string]bool {
+			if ctx == "top" {
+				return funcCtx(owner, depth+1)
+			}
+			return map[string]bool{ctx: true}
+		}
+		funcCtx = func(name string, depth int) map[string]bool {
+			out := map[string]bool{}
+			fd := funcs[name]
+			if fd == nil || depth > 3 || ast.IsExported(name) {
+				out[free] = true
+				return out
+			}
+			refs := 0
+			for owner, g := range funcs {
+				scan(g, func(n ast.Node, ctx string, parents []ast.Node) {
+					var refName string
+					switch x := n.(type) {
+					case *ast.SelectorExpr:
+						refName = x.Sel.Name
+					case *ast.Ident:
+						if len(parents) > 0 {
+							if se, isSel := parents[len(parents)-1].(*ast.SelectorExpr); isSel && se.Sel == x {
+								return // counted at the selector
+							}
+						}
+						refName = x.Name
+					default:
+						return
+					}
+					if refName != name || len(parents) == 0 {
+						return
+					}
+					refs++
+					parent := parents[len(parents)-1]
+					if c, isC := parent.(*ast.CallExpr); isC {
+						if c.Fun == n.(ast.Expr) {
+							// a direct call: runs where the call site runs, unless started with `go`
+							if len(parents) > 1 {
+								if _, isGo := parents[len(parents)-2].(*ast.GoStmt); isGo {
+									out[free] = true
+									return
+								}
+							}
+							for k := range resolve(ctx, owner, depth) {
+								out[k] = true
+							}
+							return
+						}
+						if q, okq := isQueueCall(c); okq && len(c.Args) == 2 && c.Args[1] == n.(ast.Expr) {
+							out[q] = true
+							return
+						}
+					}
+					out[free] = true
+				})
+			}
+			if refs == 0 {
+				out[free] = true
+			}
+			return out
+		}
+		used := map[string]bool{}
+		compactCalls := 0
+		for owner, g := range funcs {
+			scan(g, func(n ast.Node, ctx string, parents []ast.Node) {
+				c, isC := n.(*ast.CallExpr)
+				if !isC {
+					return
+				}
+				if p, sel := lastSel(c.Fun); sel == "Compact" && strings.HasSuffix(p, "compactor") {
+					compactCalls++
+					for k := range resolve(ctx, owner, 0) {
+						used[k] = true
+					}
+				}
+			})
+		}
+		ok := compactCalls >= 1 && len(used) == 1 && !used[free]
 		fc.set("c18CompactOneQueue", 1, ok, "dkv/db.go: every compactor.Compact call inside a function given to Enqueue (directly or through a helper that forwards queue and function to Enqueue) with one package-level bg.NewQueue queue")
 	}
 
